@@ -217,13 +217,13 @@ func runC07(e *Env) {
 			// pair of faults: the Error raised for the first failure was handed to a callback on the
 			// terminal path that failed as well; the library sends that to the unhandled-error hook and
 			// the subscriber is never told (same root cause as the single-fault clause of that name)
-			e.Violate("C07", "failure-swallowed-to-unhandled-hook", fmt.Sprintf("faults %v: the first failure (%s at %s#%d) never reached the subscriber as an Error: its error path failed too and went to the unhandled-error hook %v (trace %s)", sc.Faults, f.Kind, f.Site, f.Inv, e.Unhandled, rec.Trace()))
+			e.Violate("C07", "failure-swallowed-to-unhandled-hook:pair:"+swallowSite(sc.Faults), fmt.Sprintf("faults %v: the first failure (%s at %s#%d) never reached the subscriber as an Error: its error path failed too and went to the unhandled-error hook %v (trace %s)", sc.Faults, f.Kind, f.Site, f.Inv, e.Unhandled, rec.Trace()))
 			break
 		}
 		if len(rest) == 0 {
 			clause := "failure-swallowed"
 			if len(e.Unhandled) > 0 {
-				clause = "failure-swallowed-to-unhandled-hook"
+				clause = "failure-swallowed-to-unhandled-hook:" + f.Site
 			}
 			e.Violate("C07", clause, fmt.Sprintf("fault %s at %s#%d: no Error notification reached the subscriber (trace %s, unhandled %v)", f.Kind, f.Site, f.Inv, rec.Trace(), e.Unhandled))
 			break
@@ -337,4 +337,13 @@ func init() {
 			}
 		},
 	})
+}
+
+// swallowSite names the fault sites of a pair (stage names stripped, callback kinds kept) for the fingerprint.
+func swallowSite(fs []FaultSpec) string {
+	var parts []string
+	for _, f := range fs {
+		parts = append(parts, f.Site)
+	}
+	return strings.Join(parts, "+")
 }
